@@ -110,6 +110,7 @@ REQUIRE = {
     "lagrangian_vector_fields_N==dim": 16,
     "lagrangian_vector_N==dim_content_checked_or_F3": 16,
     "grid_only_roundtrips": 8,
+    "cases_with_two_or_more_unnamed_grids": 3,
     "grid_only_missing_grid_variants": 8,
     "reject_missing_dataset": 40,
     "reject_extra_field": 40,
@@ -363,6 +364,8 @@ def _gen_plan(rng, cls, dim, dtype, force=None):
         n_grids = max(n_grids, 2 if dupf else 1)
     if force == "grid-only":
         n_grids = int(rng.integers(1, 4))
+    if force == "unnamed":
+        n_grids = int(rng.integers(2, 4))
     if cls == "CosseratRodIO":
         n_grids = min(n_grids, 3)
         plan["n_elems"] = int(rng.choice([2, 3, 4, 7, 64, dim]))
@@ -379,7 +382,7 @@ def _gen_plan(rng, cls, dim, dtype, force=None):
         fn = _names(rng, nf, taken=taken)
         taken |= set(fn)
         g = {
-            "name": None if rng.random() < 0.15 else gnames[gi],
+            "name": None if (rng.random() < 0.15 or force == "unnamed") else gnames[gi],
             "N": N,
             "connect": bool(rng.random() < 0.3),
             "kind": str(rng.choice(KINDS)),
@@ -545,6 +548,7 @@ def _build(plan, rng, fill, spu):
             B.io.add_as_eulerian_fields_for_io(**fields)
 
     B.gnames = ["rod"] if cls == "CosseratRodIO" else []
+    B.registry_collisions = []
     for gi, g in enumerate(plan["lag"]):
         N = g["N"]
         grid = mk((dim, N), g["kind"], g["layout"])
@@ -556,7 +560,13 @@ def _build(plan, rng, fill, spu):
             kw["lagrangian_grid_name"] = g["name"]
         if g["connect"]:
             kw["lagrangian_grid_connect"] = True
+        n_before = len(B.io.lagrangian_grids)
         B.io.add_as_lagrangian_fields_for_io(lagrangian_grid=grid, **kw, **fields)
+        # every registration must add ONE grid to the registry: an unnamed grid whose default name collides with an
+        # earlier one would silently replace it (and this harness, which reads the effective name back from the
+        # registry, would otherwise mirror the collision)
+        if len(B.io.lagrangian_grids) != n_before + 1:
+            B.registry_collisions.append((gi, g["name"], list(B.io.lagrangian_grids.keys())))
         # effective group name (default naming when none was given): last key of the registry
         gname = g["name"] if g["name"] is not None else list(B.io.lagrangian_grids.keys())[-1]
         B.gnames.append(gname)
@@ -632,6 +642,15 @@ def _run_case(rec, rng, spu, h5py, plan, tier, case_id):
             return
         rec.count(f"cases_{plan['cls']}")
         rec.count("noncontiguous_source_views", S.noncontig)
+        nun = sum(1 for g in plan["lag"] if g["name"] is None)
+        rec.count("unnamed_grids_registered", nun)
+        if nun >= 2:
+            rec.count("cases_with_two_or_more_unnamed_grids")
+        if getattr(S, "registry_collisions", None):
+            viol("grid-registration-replaced-earlier-grid", f"registering grid {S.registry_collisions[0][0]} (name {S.registry_collisions[0][1]!r}) did not add a grid: "
+                 f"registry keys {S.registry_collisions[0][2]} - an earlier grid was silently replaced and can be neither saved nor restored")
+            rec.case(None)
+            return
         if plan["cls"] == "CosseratRodIO" and rng.random() < 0.6:
             # the rod moves between registration and save: CosseratRodIO.save must store the current
             # element positions (rows used as the "nodes" grid are simply new grid content)
@@ -954,7 +973,7 @@ def run_shard(sh, rec):
         "EulerianFieldIO": ["unit-axis", "unit-axis", "empty"],
     }[cls]
     if cls == "IO":
-        forced = forced + ["dupnames-same", "dupnames-diff"]
+        forced = forced + ["dupnames-same", "dupnames-diff", "unnamed"]
     for i in range(ncases):
         force = forced[i] if i < len(forced) else None
         if force is None and cls == "IO" and tier != "quick" and i % 10 == 0:
